@@ -68,21 +68,22 @@ type role struct {
 var traceOn = os.Getenv("VERIF_TRACE") != ""
 
 type model struct {
-	prop      string
-	out       *vstat.Outcome
-	w         *world
-	sc        Scenario
-	cur       map[[2]int]*gen
-	roles     map[int]*role
-	gens      []*gen
-	fatalErr  bool
-	faultQ    map[string][]string
-	evSeen    int
-	upsSeen   map[int]bool
-	stats     modelStats
-	hfpD      int
-	storeSeen int
-	passive   bool // only record the trace (C03 has its own oracle)
+	prop         string
+	out          *vstat.Outcome
+	w            *world
+	sc           Scenario
+	cur          map[[2]int]*gen
+	roles        map[int]*role
+	gens         []*gen
+	fatalErr     bool
+	faultQ       map[string][]string
+	evSeen       int
+	upsSeen      map[int]bool
+	stats        modelStats
+	hfpD         int
+	brokenSerial map[int]bool // upstream exchanges whose body was a deliberately broken gzip stream
+	storeSeen    int
+	passive      bool // only record the trace (C03 has its own oracle)
 }
 
 type modelStats struct {
@@ -558,6 +559,12 @@ func (m *model) nextHandover() []int {
 
 func (m *model) onUpstreamEnd(opIdx int, u *upReq, snap snapshot) {
 	m.upsSeen[u.Serial] = true
+	if u.Out != nil && u.Out.Enc == "gzip-broken" {
+		if m.brokenSerial == nil {
+			m.brokenSerial = map[int]bool{}
+		}
+		m.brokenSerial[u.Serial] = true
+	}
 	r := m.roles[u.Client]
 	if r == nil {
 		return
@@ -700,12 +707,22 @@ func (m *model) judgeWoken(opIdx int, id int, g *gen, st string, snap snapshot) 
 		switch st {
 		case "done":
 			r.serial = r.fSerial
+			if m.brokenSerial[r.fSerial] {
+				// the fetched body was a broken gzip stream: what the waiter receives is not
+				// specified, only that it is released without contacting the upstream
+				if len(c.Ups) != 0 {
+					m.viol("C01", "waiter-refetched", "op %d: request %d waited for the cacheable fetch #%d but contacted the upstream itself", opIdx, id, r.fSerial)
+				}
+				r.kind = "done"
+				return
+			}
 			if c.Serial != r.fSerial || len(c.Ups) != 0 {
 				m.viol("C01", "waiter-not-answered-from-fetch", "op %d: request %d waited for the cacheable fetch #%d but was answered with serial %d after %d upstream contact(s)", opIdx, id, r.fSerial, c.Serial, len(c.Ups))
 				r.kind = "free"
 			} else {
 				r.kind = "hit"
 				m.checkBodyOf(opIdx, c, r.fSerial, r.fBodyLen)
+				m.checkHeaders(opIdx, c, r.fSerial)
 				if c.Code != r.fStatus {
 					m.viol("C05", "status", "op %d: waiter %d has status %d, the fetch it waited for answered %d", opIdx, id, c.Code, r.fStatus)
 				}
@@ -732,6 +749,7 @@ func (m *model) judgeWoken(opIdx int, id int, g *gen, st string, snap snapshot) 
 			r.g = cur
 		} else {
 			m.viol("C02", "waiter-of-failed-fetch", "op %d: request %d waited for a fetch that ended uncacheable/failed but was answered without its own upstream request (X-Status %q, serial %d)", opIdx, id, c.XStatus, c.Serial)
+			m.viol("C03", "delivered-without-contact", "op %d: request %d (X-Status %q) was answered with serial %d without an upstream contact although the fetch it waited for did not produce a shareable response", opIdx, id, c.XStatus, c.Serial)
 			r.kind = "free"
 		}
 	default:
@@ -868,6 +886,13 @@ func (m *model) storeFault(call, key string) (fault string, called bool) {
 
 // checkHit: a response served from cache
 func (m *model) checkHit(opIdx int, c *clientRec, g *gen, e float64) {
+	if m.brokenSerial[g.serial] {
+		if len(c.Ups) != 0 {
+			m.viol("C03", "label", "op %d: request %d was expected to be served from the stored entry but contacted the upstream %d time(s)", opIdx, c.ID, len(c.Ups))
+		}
+		m.roles[c.ID].kind = "done"
+		return
+	}
 	if c.XStatus != "hit" {
 		m.viol("C03", "label", "op %d: request %d was answered without an upstream contact but is labelled %q", opIdx, c.ID, c.XStatus)
 	}
@@ -897,7 +922,36 @@ func (m *model) checkHit(opIdx int, c *clientRec, g *gen, e float64) {
 		}
 	}
 	m.checkBody(opIdx, c, g)
+	m.checkHeaders(opIdx, c, g.serial)
 	m.roles[c.ID].checked = true
+}
+
+// checkHeaders: the end-to-end headers the upstream sent for that exchange must arrive unaltered
+func (m *model) checkHeaders(opIdx int, c *clientRec, serial int) {
+	if serial <= 0 || m.brokenSerial[serial] {
+		return
+	}
+	m.w.mu.Lock()
+	var sent http.Header
+	if serial <= len(m.w.ups) {
+		sent = m.w.ups[serial-1].Sent
+	}
+	m.w.mu.Unlock()
+	for name, vals := range sent {
+		switch name {
+		case "Content-Encoding", "Content-Length", "Age", "Connection", "Date":
+			continue
+		}
+		got := c.Header.Values(name)
+		same := len(got) == len(vals)
+		for i := 0; same && i < len(vals); i++ {
+			same = got[i] == vals[i]
+		}
+		if !same {
+			m.viol("C05", "headers", "op %d: request %d received header %s=%q, the upstream sent %q (exchange #%d)", opIdx, c.ID, name, got, vals, serial)
+			return
+		}
+	}
 }
 
 func (m *model) checkBody(opIdx int, c *clientRec, g *gen) {
@@ -906,7 +960,7 @@ func (m *model) checkBody(opIdx int, c *clientRec, g *gen) {
 
 func (m *model) checkBodyOf(opIdx int, c *clientRec, serial, bodyLen int) {
 	k := m.keyOf(c)
-	if k.Method == http.MethodHead {
+	if k.Method == http.MethodHead || m.brokenSerial[serial] {
 		return
 	}
 	want := echoLine(k.Method, k.Host, k.URI, serial) + "\n" + string(filler(bodyLen, serial))
@@ -951,6 +1005,9 @@ func (m *model) checkDone(snap snapshot) {
 			}
 			continue
 		}
+		if m.anyBroken(c) {
+			continue // what a client gets for a deliberately broken upstream stream is not specified; only that it finishes
+		}
 		// C06: whatever was delivered must echo the client's own triple
 		if c.Echo != "" {
 			prefix := k.Method + " " + k.Host + " " + k.URI + " #"
@@ -965,8 +1022,11 @@ func (m *model) checkDone(snap snapshot) {
 		if c.Code > 0 && c.Code < 500 && c.XStatus != "hit" && len(c.Ups) != 1 && kind != "free" {
 			m.viol("C03", "label", "request %d got status %d labelled %q after %d upstream contact(s)", c.ID, c.Code, c.XStatus, len(c.Ups))
 		}
-		if c.DecodeErr != "" {
+		if c.DecodeErr != "" && !m.brokenSerial[c.Serial] && !m.anyBroken(c) {
 			m.viol("C05", "decode", "response of request %d does not decode: %s", c.ID, c.DecodeErr)
+		}
+		if m.anyBroken(c) || m.brokenSerial[c.Serial] {
+			continue // what a client gets for a broken upstream stream is not specified; only that it finishes
 		}
 		switch kind {
 		case "fetcher", "pass", "woken":
@@ -992,6 +1052,7 @@ func (m *model) checkDone(snap snapshot) {
 				if c.Serial != u.Serial {
 					m.viol("C06", "foreign-response", "request %d got serial %d, its own upstream exchange was #%d", c.ID, c.Serial, u.Serial)
 				}
+				m.checkHeaders(-1, c, u.Serial)
 				if k.Method != http.MethodHead && c.DecodeErr == "" {
 					wantBody := echoLine(k.Method, k.Host, k.URI, u.Serial) + "\n" + string(filler(u.Out.BodyLen, u.Serial))
 					if string(c.Body) != wantBody {
@@ -1012,6 +1073,17 @@ func (m *model) checkDone(snap snapshot) {
 			}
 		}
 	}
+}
+
+func (m *model) anyBroken(c *clientRec) bool {
+	m.w.mu.Lock()
+	defer m.w.mu.Unlock()
+	for _, sn := range c.Ups {
+		if u := m.w.ups[sn-1]; u.Out != nil && u.Out.Enc == "gzip-broken" {
+			return true
+		}
+	}
+	return false
 }
 
 func (m *model) finish(snap snapshot) {
